@@ -1,5 +1,6 @@
 import PoolProofs.BatchLemmas
 import PoolProofs.BatchSpec
+import PoolProofs.BatchExamples
 /-! Helper lemmas of C02: the account-diff loop, the ending-state validation, and the agreement of the model's
 wrapped `int64` arithmetic with the integer formulas of the spec inside the overflow guard. -/
 set_option linter.unusedSimpArgs false
@@ -301,5 +302,10 @@ theorem mem_contribs {env : Env} {k : Key} {l : List (Nonce × List Their)} {c :
       subst hc
       exact ⟨rfl, hk, rfl⟩
     · simp [hk] at hc
+
+theorem exAcct_of {a : Acct} (h : findAcct "A" exEnv.accounts = some a) :
+    a = { key := "A", value := 1000000, expiry := 5000, version := 0 } := by
+  simp [exEnv, findAcct] at h; exact h.symm
+
 
 end Pool.Batch
